@@ -1,4 +1,4 @@
-CONSTANTS N = 3  Calls <- C1  Kinds <- KRR  Steps <- S30  MaxSend = 3  Reconn <- RTrue  Overlap = FALSE  KeepAlive = FALSE  PingNeutral = FALSE  Faults = FALSE
+CONSTANTS N = 3  Calls <- C1  Kinds <- KRR  Steps <- S30  MaxSend = 3  Reconn <- RTrue  Overlap = FALSE  KeepAlive = FALSE  PingNeutral = FALSE  Faults = FALSE  Reg0 <- AllEps  Answers <- NoAnswers  Stale = FALSE
 SPECIFICATION Spec
 CONSTRAINT SendBound
 INVARIANTS TypeOK RotationIsHealthy ProbeQueueSingle ProbesTargetBlocked FailuresCounted CallsGoSomewhere
